@@ -1,6 +1,7 @@
 """C09 -- writer calls are validated, and a refused call changes nothing (clause level)."""
 import json, os
 from ..core import *
+from ..inline import inlined_body
 
 EXPLANATION = ("Static MIR rules on ArchiveWriter: (R09.1) in every function reachable from start_file / append_file_content / end_file / add_file / "
                "finalize, no refusal site (construction of DuplicateFilename, FilenameTooLong, WrongArchiveWriterState, WrongWriterState, or a call to a "
@@ -286,51 +287,66 @@ def run(prog, rep, tier):
         rep.note('stale table entry (no such refusal site any more): %s' % k)
 
     # ---------------- R09.2 state test first
-    for body in entries:
-        if body.name == 'add_file':
+    # (the tests may be a macro, inline code or a private read-only method used with `?`: the entry points are examined with such helpers spliced in;
+    #  the helpers that have effects of their own -- mark_continuous_block, extend_file_size, .. -- keep being summarised by S)
+    def pure_checker(c):
+        return c.key in S.roots and not S.effect_sites(c) and c.lty(0).startswith('std::result::Result<()')
+    for body0 in entries:
+        if body0.name == 'add_file':
             continue  # delegates to the three others
+        body = inlined_body(prog, body0, only=pure_checker)
         effs = S.effect_sites(body)
+        oks = [(b.idx, i) for b in body.blocks if not b.cleanup for i, st in enumerate(b.stmts)
+               if st.kind == 'assign' and st.place == (0, ()) and st.rv.r == 'aggregate' and st.rv.j.get('variant') == 'Ok']
+        # a state test: a switch on the ArchiveWriterState discriminant with a distinct OpenedFiles arm. "Behind the test" is decided in a form that
+        # survives the join at the end of a checking helper used with `?`: with the OpenedFiles edge cut, the site is no longer reachable from the
+        # entry of the function (paths track the Ok / Err variant through `?`)
         guards = []
         for sbb, si in arm_of_enum_switch(prog, body, adt='ArchiveWriterState'):
-            o = place_fields(si['place'])
             t = enum_arm_target(si, 'OpenedFiles')
             f = enum_arm_target(si, 'Finalized')
             if t is not None and t != f:
-                guards.append((sbb, t))
-        bad = [(eb, ei, w) for (eb, ei, w, r) in effs if not any(body.edge_dominates(g, eb) for g in guards)]
-        # ... and no success without it: a call made in the wrong state is an error whatever its other arguments (e.g. a zero size)
-        oks = [(b.idx, i) for b in body.blocks if not b.cleanup for i, st in enumerate(b.stmts)
-               if st.kind == 'assign' and st.place == (0, ()) and st.rv.r == 'aggregate' and st.rv.j.get('variant') == 'Ok']
-        bad_ok = [(bb, i) for bb, i in oks if not any(body.edge_dominates(g, bb) for g in guards)]
+                # what stays reachable (tracking Ok / Err through `?`) when the OpenedFiles edge of this test is cut
+                guards.append((sbb, t, reachable_vs(body, 0, removed_edges=[(sbb, t)])))
+
+        def behind(bb):
+            return any(bb not in g[2] for g in guards)
+        bad_ok = [(bb, i) for bb, i in oks if not behind(bb)]
         rep.ob('R09.2', bool(guards) and not bad_ok, 'R09.2|%s|state-test-dominates-success' % body.nkey,
                '%d Ok result(s) all behind the OpenedFiles edge of a state test' % len(oks) if (guards and not bad_ok) else
                '%s can return Ok without having tested the archive state (%s): a call that must be refused is reported as success' % (body.name, ', '.join(body.loc(bb, i) for bb, i in bad_ok[:3])), body.loc())
+        bad = [(eb, ei, w) for (eb, ei, w, r) in effs if not behind(eb)]
         rep.ob('R09.2', bool(guards) and not bad, 'R09.2|%s|state-test-dominates-effects' % body.nkey,
                '%d effect site(s) all behind the OpenedFiles edge of a state test' % len(effs) if (guards and not bad) else
                'effects not guarded by the archive-state test: %s' % '; '.join('%s at %s' % (w, body.loc(eb, ei)) for eb, ei, w in bad[:4]), body.loc())
     # per-file methods test id membership before any effect
-    for body in entries:
-        if body.name not in ('append_file_content', 'end_file'):
+    for body0 in entries:
+        if body0.name not in ('append_file_content', 'end_file'):
             continue
+        body = inlined_body(prog, body0, only=pure_checker)
         effs = S.effect_sites(body)
         tests = []
         for bl in body.blocks:
             r = branch_on_call(prog, body, bl.idx)
             if r and r[1].cmethod in ('contains', 'contains_key'):
-                tests.append((bl.idx, r[2]))
-        bad = [(eb, ei, w) for (eb, ei, w, r) in effs if sum(1 for g in tests if body.edge_dominates(g, eb)) < 2]
+                tests.append((bl.idx, r[2], reachable_vs(body, 0, removed_edges=[(bl.idx, r[2])])))
+
+        def behind2(bb):
+            return sum(1 for g in tests if bb not in g[2]) >= 2
         oks = [(b.idx, i) for b in body.blocks if not b.cleanup for i, st in enumerate(b.stmts)
                if st.kind == 'assign' and st.place == (0, ()) and st.rv.r == 'aggregate' and st.rv.j.get('variant') == 'Ok']
-        bad_ok = [(bb, i) for bb, i in oks if sum(1 for g in tests if body.edge_dominates(g, bb)) < 2]
+        bad_ok = [(bb, i) for bb, i in oks if not behind2(bb)]
         rep.ob('R09.2', len(tests) >= 2 and not bad_ok, 'R09.2|%s|id-membership-dominates-success' % body.nkey,
                'every Ok result behind ids.contains(id) && hashes.contains_key(id)' if (len(tests) >= 2 and not bad_ok) else
                '%s can return Ok for an id that is not an open file (%s)' % (body.name, ', '.join(body.loc(bb, i) for bb, i in bad_ok[:3])), body.loc())
+        bad = [(eb, ei, w) for (eb, ei, w, r) in effs if not behind2(eb)]
         rep.ob('R09.2', len(tests) >= 2 and not bad, 'R09.2|%s|id-membership-dominates-effects' % body.nkey,
                'effects behind ids.contains(id) && hashes.contains_key(id)' if (len(tests) >= 2 and not bad) else 'effects not guarded by the open-file membership tests', body.loc())
 
     # ---------------- R09.3 announced length is the copied length
     dump = one_body(prog, rep, 'R09.3', 'mla', exact='ArchiveFileBlock::dump')
     if dump is not None:
+        dump = inlined_body(prog, dump)   # the bounded copy and its length test may live in a private helper
         copies = [b for b in dump.calls() if cnorm(b.term) == 'std::io::copy']
         rep.floor('R09.3', len(copies), 1, 'io::copy calls in ArchiveFileBlock::dump')
         for c in copies:
@@ -360,8 +376,8 @@ def run(prog, rep, tier):
                     if sorted(sides) == ['count', 'length'] and (short_true or short_false):
                         # the edge taken when fewer bytes than announced were copied must return Err
                         mism = si['true'] if short_true else si['false']
-                        r = dump.reachable(mism)
-                        errs = [b2 for b2 in r for s in dump.blocks[b2].stmts if s.kind == 'assign' and s.place == (0, ()) and s.rv.r == 'aggregate' and s.rv.j.get('variant') == 'Err'] + \
+                        r = reachable_vs(dump, mism)     # follows the Err of a helper through `?` to the error return only
+                        errs = [b2 for b2 in r for s in dump.blocks[b2].stmts if s.kind == 'assign' and s.rv.r == 'aggregate' and s.rv.j.get('variant') == 'Err' and 'Result' in (s.rv.j.get('adt') or '')] + \
                                [b2 for b2 in r if dump.blocks[b2].term.kind == 'call' and dump.blocks[b2].term.cmethod == 'from_residual']
                         okr = [b2 for b2 in r for s in dump.blocks[b2].stmts if s.kind == 'assign' and s.place == (0, ()) and s.rv.r == 'aggregate' and s.rv.j.get('variant') == 'Ok']
                         if errs and not okr:
